@@ -802,6 +802,41 @@ func c14Partial(c *Ctx, S map[*ssa.Function]bool) {
 							}
 						}
 					}
+					// a method called on (or through) a pointer- or interface-typed field of the Policy itself: a policy that
+					// was not built by NewPolicy() (a Policy{} literal, lazily set up by init()) has it nil unless init() sets it
+					{
+						var recvVal ssa.Value
+						if cm.IsInvoke() {
+							recvVal = cm.Value
+						} else if cal := cm.StaticCallee(); cal != nil && cal.Signature.Recv() != nil && len(cm.Args) > 0 {
+							if _, isPtr := cal.Signature.Recv().Type().Underlying().(*types.Pointer); isPtr {
+								recvVal = cm.Args[0]
+							}
+						}
+						if u, ok := recvVal.(*ssa.UnOp); ok && u.Op == token.MUL {
+							if fa, ok := u.X.(*ssa.FieldAddr); ok && model.PolicyField(fa) != "" {
+								switch u.Type().Underlying().(type) {
+								case *types.Pointer, *types.Interface:
+									name := pa.FieldName(fa)
+									cnt["pf:"+name]++
+									key := fmt.Sprintf("%s:method-on-policy-field:%s#%d", shortFn(fn), name, cnt["pf:"+name])
+									setByInit := false
+									if initFn := c.P.Func(load.ModPath, "(*Policy).init"); initFn != nil {
+										for _, ib := range initFn.Blocks {
+											for _, iin := range ib.Instrs {
+												if st, ok := iin.(*ssa.Store); ok && model.PolicyField(st.Addr) == model.PolicyField(fa) {
+													if k, isC := st.Val.(*ssa.Const); !isC || !k.IsNil() {
+														setByInit = true
+													}
+												}
+											}
+										}
+									}
+									R.Check(setByInit || nonNilAt(recvVal, x), "C14.R2", key, shortFn(fn)+": method call on Policy."+name, pos, "under a non-nil test, or the field is given a value by init()", "a pointer-valued field of the policy is used without a nil test: on a policy that was not created by NewPolicy() (a Policy{} literal, which init() sets up lazily) it is nil and sanitising panics")
+								}
+							}
+						}
+					}
 					if isMatchString(cm) || (cm.StaticCallee() != nil && strings.HasPrefix(pa.CalleeName(cm.StaticCallee()), "(*regexp.Regexp).")) {
 						if u, ok := cm.Args[0].(*ssa.UnOp); ok {
 							if fa, ok := u.X.(*ssa.FieldAddr); ok && pa.FieldName(fa) == "regexp" {
